@@ -60,6 +60,15 @@ fn dispatch(t: &[&str]) -> String {
         "tktypes" => takes::types(),
         "expr" => exprs::run(util::backend(t[1]), &sexp::parse(&t[2..].join(" "))),
         "stmt" => stmts::run(util::backend(t[1]), &sexp::parse(&t[2..].join(" "))),
+        "entry" => stmts::run_entry(util::backend(t[1]), &sexp::parse(&t[2..].join(" "))),
+        "ftext" => {
+            // ftext f32|f64 <bits-hex>: the Display text of the float
+            if t[1] == "f32" {
+                util::hexs(&format!("{}", f32::from_bits(u32::from_str_radix(t[2], 16).unwrap())))
+            } else {
+                util::hexs(&format!("{}", f64::from_bits(u64::from_str_radix(t[2], 16).unwrap())))
+            }
+        }
         #[cfg(feature = "fa")]
         "from" | "null" | "try" | "rt" | "rtx" | "asnull" | "dummy" | "deq" | "tupinto" | "tupfrom" | "tup" => valueconv::run(t),
         other => format!("UNKNOWN-OP {}", other),
